@@ -2,6 +2,7 @@
 
 import ast
 import os
+from decimal import Decimal
 from fractions import Fraction
 
 import numpy as np
@@ -113,6 +114,9 @@ class OpaqueF:
         return out
 
 
+SYMBOLIC_EPS = [True]  # regularisation parameters with a default are passed as symbols too (a keyword that is not forwarded shows up)
+
+
 def build_args(node, world, kwargs_attr):
     fn = node
     params = [a.arg for a in node.args.args]
@@ -143,7 +147,7 @@ def build_args(node, world, kwargs_attr):
         elif pn == "quadrature":
             continue
         elif has_default and pn not in (kwargs_attr or {}):
-            if pn in ("ε",):
+            if pn in ("ε",) and not SYMBOLIC_EPS[0]:
                 continue
             args[pn] = sym("par_" + pn, positive=True)
         else:
@@ -214,7 +218,33 @@ def run_pair(col, jmod, tmod, name):
                 a, b = flatten(rj), flatten(rt)
                 if len(a) != len(b):
                     return False, "results have different sizes: %d vs %d" % (len(a), len(b))
-                bad = [i for i, (x, y) in enumerate(zip(a, b)) if not is_zero(x - y)]
+                # cheap exact pre-check: two expressions that denote one function agree at every point; evaluate both at one rational point
+                # (roots of constants stay exact algebraic numbers in the ring); a difference there is a proof of inequality and saves the
+                # normalisation of a huge difference
+                bad = []
+                syms = sorted(set().union(*[ring.all_syms(x) for x in a + b]))
+                for shift in (0, 1, 2):
+                    point = {g: Fraction(3 + k + shift, 7 + k + 2 * shift) for k, g in enumerate(syms)}
+                    for i, (x, y) in enumerate(zip(a, b)):
+                        if x.t == y.t:
+                            continue
+                        try:
+                            xs, ys = ring.subs(x, point), ring.subs(y, point)
+                            dx = xs - ys
+                            if ring.all_syms(dx):
+                                continue
+                            # a constant (possibly algebraic / with function atoms of constants): separated from zero at 80 digits?
+                            v = ring.const_decimal(dx)
+                            scale = max(abs(ring.const_decimal(xs)), 1)
+                        except (ring.Undecided, ZeroDivisionError, RecursionError, ArithmeticError):
+                            continue
+                        if abs(v) > scale * Decimal(10) ** -40:
+                            bad.append(i)
+                            break
+                    if bad:
+                        break
+                if not bad:
+                    bad = [i for i, (x, y) in enumerate(zip(a, b)) if not is_zero(x - y)]
                 detail = "%s:%d vs %s:%d: " % (jmod.replace("felupe.constitution.", ""), nj.lineno, tmod.replace("felupe.constitution.", ""), nt.lineno)
                 if bad:
                     i = bad[0]
